@@ -113,7 +113,8 @@ LaterScansFalseOK(h) == \A i \in 1 .. Len(h) : (h[i].op = "Scan" /\ h[i].stopped
 \* Close and cancellation both) every reading is accepted.  Before anything happened the property says nothing.
 AllowedErr(st) ==
   IF st.err = "err" THEN {"err"}
-  ELSE (IF st.err = "eof" THEN {"nil"} ELSE {}) \cup (IF st.closed THEN {"closed"} ELSE {}) \cup (IF st.cancelled THEN {"ctx"} ELSE {})
+  ELSE IF st.err = "eof" THEN {"nil"}     \* a recorded clean end wins over a later Close / cancellation (documented: Err is nil at io.EOF)
+  ELSE (IF st.closed THEN {"closed"} ELSE {}) \cup (IF st.cancelled THEN {"ctx"} ELSE {})
 ErrPrecedenceOK(h) == \A i \in 1 .. Len(h) : (h[i].op = "Err" /\ AllowedErr(h[i].st) # {}) => h[i].ret \in AllowedErr(h[i].st)
 \* a Scan that returns false has a reason
 FalseHasReason(h) == \A i \in 1 .. Len(h) : (h[i].op = "Scan" /\ h[i].ret = "false") => (h[i].st.err # "none" \/ h[i].st.closed \/ h[i].st.cancelled)
